@@ -841,3 +841,42 @@ def rule_main_selection(ctx, rep):
         err, out = _run_main(ctx, w, fields, {"c.teal": src})
         text = "\n".join(out)
         rep.check(err is None and "CommandLineError" in text, rule, f"rejected: {name}", ctx.path("tealer.utils.command_line.common"), err or text[:120], "CommandLineError message and exit")
+
+
+def rule_main_group(ctx, rep):
+    rule = "T-MAIN(group)"
+    rep.rule(rule, "the `detect --group-config` command evaluated from main() down (the YAML reader replaced by the document it would return): the "
+                   "configured group is built, the chosen detectors run in group mode and the text names, per detector, exactly the transactions "
+                   "that nothing validates, with the contract function the detector is about")
+    w = _capture(ctx)
+    where = ctx.path(MAIN)
+    mod = w.module(MAIN)
+    GC = "tealer.utils.command_line.group_config"
+    from_yaml = w.getattr(w.cls(GC, "GroupConfig"), "from_yaml")
+
+    def contract(name, path, ctype):
+        return {"name": name, "file_path": path, "type": ctype, "version": 6, "subroutines": [], "functions": [{"name": "main", "dispatch_path": ["B0"]}]}
+    doc = {"name": "g", "contracts": [contract("A", "lsig_a.teal", "LogicSig"), contract("B", "lsig_b.teal", "LogicSig"), contract("APP", "app.teal", "ApprovalProgram")],
+           "groups": [{"operation": "swap", "transactions": [
+               {"txn_id": "T0", "txn_type": "pay", "logic_sig": {"contract": "A", "function": "main"}, "absolute_index": 0},
+               {"txn_id": "T1", "txn_type": "appl", "application": {"contract": "APP", "function": "main"}, "logic_sig": {"contract": "B", "function": "main"}},
+               {"txn_id": "T2", "txn_type": "axfer"}]}]}
+    files = {"lsig_a.teal": "#pragma version 6\narg 0\npop\nint 1\nreturn\n", "lsig_b.teal": "#pragma version 6\narg 1\npop\nint 1\nreturn\n",
+             "app.teal": "#pragma version 6\nint 0\nbyte \"k\"\napp_global_get\npop\nint 1\nreturn\n"}
+    saved = mod.lookup("read_config_from_file")
+    mod.values["read_config_from_file"] = ("host", lambda *a, **k: w.call(from_yaml, doc))
+    try:
+        err, out = _run_main(ctx, w, {"subcommand": "detect", "contracts": None, "group_config": "g.yaml", "detectors_to_run": "rekey-to,is-updatable"}, files)
+    finally:
+        mod.values["read_config_from_file"] = saved
+    text = "\n".join(out)
+    rep.check(err is None, rule, "detect --group-config runs to its exit", where, err, "completes")
+    if err is not None:
+        return
+    named = [ln.strip() for ln in text.splitlines() if ln.strip().startswith(("Transaction ", "Contract: ", "Function: "))]
+    # with every context at its default nothing is validated: the stateless detector names T0 and T1 with their logic signatures, the stateful
+    # one T1 with its application; T2 runs no configured contract
+    want = ["Transaction T0", "Contract: A", "Function: main", "Transaction T1", "Contract: B", "Function: main", "Transaction T1", "Contract: APP", "Function: main"]
+    got_l, want_l = sorted(x.lower() for x in named), sorted(x.lower() for x in want)
+    rep.check(got_l == want_l and text.count("operation swap") == 2, rule, "group verdicts as text", where, named, want,
+              why="the text printed for a group configuration does not name the vulnerable transactions of each detector", sample={"lines": want})
